@@ -21,7 +21,22 @@ type recChannel struct {
 	ch  chan struct{}
 }
 
-func newRecChannel() *recChannel { return &recChannel{ch: make(chan struct{}, 1<<16)} }
+// allRecs, when collecting is on, remembers every recording channel (C05 serialises all captured events)
+var (
+	allRecsMu  sync.Mutex
+	allRecs    []*recChannel
+	collecting bool
+)
+
+func newRecChannel() *recChannel {
+	r := &recChannel{ch: make(chan struct{}, 1<<16)}
+	allRecsMu.Lock()
+	if collecting {
+		allRecs = append(allRecs, r)
+	}
+	allRecsMu.Unlock()
+	return r
+}
 
 func (r *recChannel) Send(e event.Event) {
 	r.mu.Lock()
